@@ -116,8 +116,8 @@ theorem results_monotone {g : Graph} (hwf : graphWF g = true) {ncls : Nat} {stor
       (s.nd m).results <+: ((resume g s w out fuel).1.nd m).results) := by
   have b := hr.basic hwf
   have hws : w < s.workers.length := by rw [b.workersLen]; exact hw
-  have h1 := resume_results_sublist g hwf s w out fuel hf hws (b.paths w) m
-  refine ⟨h1, ?_, ?_, resume_results_prefix g hwf s w out fuel hf hws (b.paths w) m⟩
+  have h1 := resume_results_sublist g (GraphWF.of_bool hwf) s w out fuel hf hws (b.paths w) m
+  refine ⟨h1, ?_, ?_, resume_results_prefix g (GraphWF.of_bool hwf) s w out fuel hf hws (b.paths w) m⟩
   · intro r hr' hst
     refine h1.subset (List.mem_filter.mpr ⟨hr', ?_⟩)
     unfold removable isPh
@@ -255,7 +255,7 @@ theorem own_result_filed {g : Graph} (hwf : graphWF g = true) (hN : namesInjB g 
     (hg : good g n = true) (out : Outcome) (st : String) (hst : out.status = some st) (fuel : Nat) (hf : 0 < fuel) :
     ∃ res ∈ ((resume g s w out fuel).1.nd n).results, res.uid = uid ∧ res.dur = out.dur ∧
       (res.status = st ∨ (st = "PASS" ∧ res.status = "WARN")) :=
-  resume_files_own_result hwf (hr.basic hwf) (hr.uids hwf (namesInjB_sound hN) (preFreshB_sound hP))
+  resume_files_own_result (GraphWF.of_bool hwf) (hr.basic hwf) (hr.uids hwf (namesInjB_sound hN) (preFreshB_sound hP))
     w n dir uid tag hpc hg out st hst fuel hf
 
 end identifiers
@@ -336,7 +336,7 @@ def sW1 : State := (resume gW (initState gW 2 []) 0 { status := none } 20).1
 def sW2 : State := (resume gW sW1 1 { status := none } 20).1
 
 example : ReachableR gW 2 [] sW2 :=
-  .step 1 _ 20 (.step 0 _ 20 .init (by decide) (by decide)) (by decide) (by decide)
+  .step 1 _ 20 (.step 0 _ 20 (.init []) (by decide) (by decide)) (by decide) (by decide)
 example : inTestAt sW2 0 0 .plain = true ∧ inTestAt sW2 1 1 .plain = true ∧ classLen gW sW2 0 = 2 ∧
     (max ((gW.node 0).maxTries.getD 1) 1 = 1) := by decide
 
@@ -362,7 +362,10 @@ def sS3 : State := (resume gS sS2 0 { status := some "FAIL", dur := 3 } 20).1
 example : graphWF gS = true ∧ namesInjB gS = true ∧ preFreshB gS = true ∧ statelessClass gS 0 (some 2) = true ∧
     good gS 0 = true ∧ good gS 1 = true := by decide
 example : ReachableR gS 2 [] sS3 :=
-  .step 0 _ 20 (.step 1 _ 20 (.step 0 _ 20 .init (by decide) (by decide)) (by decide) (by decide)) (by decide) (by decide)
+  .step 0 _ 20 (.step 1 _ 20 (.step 0 _ 20 (.init []) (by decide) (by decide)) (by decide) (by decide)) (by decide) (by decide)
+/-- states of a lazily expanded run (nodes not parsed yet are `hidden`) are covered as well -/
+example : ReachableR gS 2 [] (resume gS (initState gS 2 [] [0, 1]) 0 { status := none } 20).1 :=
+  .step 0 _ 20 (.init [0, 1]) (by decide) (by decide)
 example : inTestAt sS2 0 0 .plain = true ∧ inTestAt sS2 1 1 .plain = true ∧ classLen gS sS2 0 = 2 := by decide +kernel
 example : (match (sS2.wd 0).pc, (sS2.wd 1).pc with
     | .test _ _ _ u _ _, .test _ _ _ u' _ _ => (u, u')
